@@ -46,6 +46,10 @@ def pin_of(node):
     return hashlib.sha1(norm_dump(node).encode()).hexdigest()[:16]
 
 
+class LetName(str):
+    """name of a plain `let` among the pending bindings (an object update threaded through the frame; not a raising call)"""
+
+
 class Source:
     """functions and methods of one source file, by qualified name"""
 
@@ -307,6 +311,9 @@ class FnTr:
     def wrap(self, text):
         """bind the raising calls met while translating the expression(s) `text` reads, in evaluation order"""
         for name, call in reversed(self.pending):
+            if isinstance(name, LetName):            # an object update / effectful call: a plain binding, in evaluation order
+                text = f'let {name} := {call}\n{text}'
+                continue
             text = f'match {call} with\n| Except.error e => Except.error e\n| Except.ok {name} =>\n{_indent(text)}'
         self.pending = []
         return text
@@ -320,6 +327,7 @@ class FnTr:
         return f'Except.ok {_paren(text)}' if self.inst.raises else text
 
     def err(self, exc):
+        self.check_clean(f'raise {exc}')
         if not self.inst.raises:
             raise Unsupported(f'`{self.inst.qual}`: reachable `raise` in an instance declared not to raise')
         name = {'ValueError': 'ERR:Value', 'TypeError': 'ERR:Type', 'KeyError': 'ERR:Key', 'IndexError': 'ERR:Index',
@@ -447,6 +455,10 @@ class FnTr:
                 and e.func.value.func.id == 'super' and (any_args or not e.args) and not e.keywords)
 
     def ret_value(self, e):
+        if 'frame' in self.u.hooks:
+            r = self.ret_framed(e)
+            if r is not None:
+                return r
         # a call of a raising instance in return position is the result itself
         if isinstance(e, ast.BoolOp) and self.inst.raises and self.inst.value_type == 'Bool' and not self.has_optional_test(e):
             first, others = e.values[0], e.values[1:]
@@ -665,7 +677,10 @@ class FnTr:
             vals = [self.expr(e) for e in value.elts]        # right-hand sides are all evaluated first
             pairs = list(zip(tgt.elts, vals))
         else:
+            if 'frame' in self.u.hooks:
+                self._effect_ok = self.effect_context(value)
             v = self.expr(value, allow_raise=True)
+            self._effect_ok = False
             if isinstance(tgt, ast.Name) and isinstance(value, ast.Name) and v.typ.startswith(('List ', 'Set ')) \
                     and {tgt.id, value.id} & _mutated_names(self.fn):
                 # locals are translated as values: a second name for a list that is later mutated in place would not follow
@@ -718,6 +733,8 @@ class FnTr:
             elif isinstance(t, ast.Attribute) and isinstance(t.value, ast.Name) and t.value.id == 'self' \
                     and self.inst.qual.endswith('.__init__'):
                 self.fields[t.attr] = v
+            elif 'frame' in self.u.hooks and isinstance(t, (ast.Attribute, ast.Subscript)) and len(pairs) == 1:
+                return self.store_framed(t, v, lets, rest)
             else:
                 raise Unsupported(f'`{self.inst.qual}`: assignment to `{ast.unparse(t)}`')
         return '\n'.join(lets + [self.block(rest)])
@@ -763,6 +780,8 @@ class FnTr:
         """`while c: body` (assignments only) as a *fuelled* recursion: an auxiliary definition over a `Nat` fuel and the
         assigned variables; fuel 0 and a false condition both continue with the code after the loop.  The fuel handed in at
         the call is the unit's (`hooks['fuel']`): a bound the property proofs show is never exhausted."""
+        if 'frame' in self.u.hooks:
+            raise Unsupported(f'`{self.inst.qual}`: a loop in a unit that threads object state')
         if s.orelse:
             raise Unsupported(f'`{self.inst.qual}`: while/else')
         assigned = set()
@@ -961,6 +980,8 @@ class FnTr:
         scope (unchanged ones first, then the *state*: the outer variables the body assigns); `[]` continues with the code
         after the loop, `item :: items` runs the body, where falling off the end is the recursive call with the current
         state and `return` leaves the function."""
+        if 'frame' in self.u.hooks:
+            raise Unsupported(f'`{self.inst.qual}`: a loop in a unit that threads object state')
         assigned = set()
         for n in ast.walk(ast.Module(body=s.body, type_ignores=[])):
             if isinstance(n, (ast.Assign, ast.AugAssign, ast.AnnAssign)):
@@ -1381,6 +1402,118 @@ class FnTr:
                 return Val(f'({self.env[e.func.id].text} {_paren(a.text)})', cod)
         return None
 
+    # ---- object state (units with a 'frame' hook) -------------------------------------------------------
+    # An object is a *reference* into the frame (`hooks['frame']['name']`, a record of heap + objects) that every
+    # definition of the unit receives; a store `x.attr = v` / `x.attr[k] = v` / an effectful call (`x.copy()`) rebinds the
+    # frame, reads go through the current one.  A method that updates objects returns (frame, reference).  An exception
+    # discards the frame, so nothing may raise once an object has been stored to (`check_clean`).
+    def frame(self):
+        return self.env['__frame__'].text if '__frame__' in self.env else self.u.hooks['frame']['name']
+
+    def set_frame(self, text):
+        self.env['__frame__'] = Val(text, 'Kw')
+
+    def check_clean(self, what):
+        if '__dirty__' in self.env:
+            raise Unsupported(f'`{self.inst.qual}`: `{what[:60]}` may raise after an object was updated (the exceptional state is not modelled)')
+
+    def effect(self, call_text, typ):
+        """bind an effectful call `call_text : frame × value`, made now, and continue in the frame it returns"""
+        if not getattr(self, '_effect_ok', False):
+            raise Unsupported(f'`{self.inst.qual}`: an object-creating call outside `x = <call>` / `x = a if c else <call>`')
+        p = LetName(self.gensym('c'))
+        self.pending.append((p, call_text))
+        self.set_frame(f'{p}.1')
+        return Val(f'{p}.2', typ)
+
+    def effect_context(self, value):
+        """an expression whose evaluation order is plain: a call on a name, or a conditional between such / names"""
+        def simple(x):
+            return isinstance(x, (ast.Name, ast.Constant)) or isinstance(x, ast.Attribute) and simple(x.value)
+        if isinstance(value, ast.IfExp):
+            return (simple(value.test) or isinstance(value.test, ast.UnaryOp) and simple(value.test.operand)) \
+                and all(simple(b) or self.effect_context(b) for b in (value.body, value.orelse))
+        return isinstance(value, ast.Call) and isinstance(value.func, ast.Attribute) and simple(value.func.value) \
+            and all(simple(a) for a in value.args) and not value.keywords
+
+    def ifexp_framed(self, e):
+        """`a if c else b` where a branch creates an object: the update stays inside its branch"""
+        ok = getattr(self, '_effect_ok', False)
+        a_tr, b_tr = self.sub(), self.sub()
+        a_tr._effect_ok = b_tr._effect_ok = ok
+        a = a_tr.expr(e.body)
+        b_tr.fresh = a_tr.fresh
+        b = b_tr.expr(e.orelse)
+        if not a_tr.pending and not b_tr.pending:
+            return None
+        if any(not isinstance(n, LetName) for n, _c in a_tr.pending + b_tr.pending):
+            raise Unsupported(f'`{self.inst.qual}`: a call that may raise inside `{ast.unparse(e)[:60]}`')
+        if a.typ != b.typ:
+            raise Unsupported(f'conditional expression of types {a.typ} / {b.typ}')
+        self.fresh = b_tr.fresh
+        c = self.truth(self.expr(e.test))
+        ta = a_tr.wrap(f'({a_tr.frame()}, {a.text})')
+        tb = b_tr.wrap(f'({b_tr.frame()}, {b.text})')
+        p = LetName(self.gensym('c'))
+        self.pending.append((p, f'(if {c} then\n{_indent(ta)}\nelse\n{_indent(tb)})'))
+        self.set_frame(f'{p}.1')
+        return Val(f'{p}.2', a.typ)
+
+    def store_framed(self, t, v, lets, rest):
+        """`x.attr = v`, `x.attr[k] = v` on an object, `d[k] = v` on a local dict value"""
+        fr = self.u.hooks['frame']
+        if getattr(v, 'raises', False):
+            name = self.gensym('r')
+            self.pending.append((name, v.text))
+            v = Val(name, v.typ)
+        if isinstance(t, ast.Subscript) and isinstance(t.value, ast.Name) and t.value.id in self.env:
+            d, k = self.env[t.value.id], self.expr(t.slice)
+            tmpl = fr.get('setlocal', {}).get((d.typ, k.typ, v.typ))
+            if tmpl is None:
+                raise Unsupported(f'`{self.inst.qual}`: `{ast.unparse(t)} = …` on {d.typ} at {k.typ}, {v.typ}')
+            nm = self.gensym(lname(t.value.id))
+            bind = f'let {nm} := {tmpl.format(_paren(d.text), _paren(k.text), _paren(v.text))}'
+            self.env[t.value.id] = Val(nm, d.typ, path=t.value.id)
+        else:
+            if isinstance(t, ast.Subscript):
+                if not isinstance(t.value, ast.Attribute):
+                    raise Unsupported(f'`{self.inst.qual}`: assignment to `{ast.unparse(t)}`')
+                obj, attr, k = self.expr(t.value.value), t.value.attr, self.expr(t.slice)
+                tmpl = fr.get('setitem', {}).get((obj.typ, attr, k.typ, v.typ))
+                args = [obj, k, v]
+            else:
+                obj, attr = self.expr(t.value), t.attr
+                tmpl = fr.get('setattr', {}).get((obj.typ, attr, v.typ))
+                args = [obj, v]
+            if tmpl is None:
+                raise Unsupported(f'`{self.inst.qual}`: `{ast.unparse(t)} = …` at {", ".join(a.typ for a in args)}')
+            if self.inst.value_type != fr['result']:
+                raise Unsupported(f'`{self.inst.qual}`: stores to an object but is declared an observation')
+            nm = self.gensym(fr['name'])
+            bind = f'let {nm} := {tmpl.format(*[_paren(a.text) for a in args], fr=self.frame())}'
+            self.set_frame(nm)
+            self.env['__dirty__'] = Val('()', 'Kw')
+            for path in [p for p in self.narrow if f'.{attr}' in p]:     # what was known about this attribute of any object
+                del self.narrow[path]
+        pend, self.pending = self.pending, []
+        inner = self.block(rest)
+        self.pending = pend
+        return '\n'.join(lets + [self.wrap(f'{bind}\n{inner}')])
+
+    def ret_framed(self, e):
+        fr = self.u.hooks['frame']
+        if self.inst.value_type == fr['result']:
+            v = self.expr(e)
+            if v.typ != fr['ref']:
+                raise Unsupported(f'`{self.inst.qual}`: returns {v.typ} where an object is declared')
+            return self.wrap(self.ok(f'({self.frame()}, {v.text})'))
+        if '__frame__' in self.env:
+            raise Unsupported(f'`{self.inst.qual}`: updates an object but is declared an observation')
+        if self.inst.value_type == 'N' and isinstance(e, ast.Constant) and isinstance(e.value, (int, float)) \
+                and not isinstance(e.value, bool) and e.value == int(e.value):
+            return self.wrap(self.ok(f'(Num.ofI ({int(e.value)} : Int))'))        # `return 0.` where a float is declared
+        return None
+
     # ---- expressions -----------------------------------------------------------------------------------
     def truth(self, v):
         """Python truthiness as a Lean Bool"""
@@ -1403,6 +1536,8 @@ class FnTr:
 
     def expr(self, e, allow_raise=False):
         v = self._expr(e)
+        if getattr(v, 'raises', False):
+            self.check_clean(ast.unparse(e))
         if getattr(v, 'raises', False) and not allow_raise:
             if not self.inst.raises:
                 raise Unsupported(f'`{self.inst.qual}`: a call that may raise inside an expression: `{ast.unparse(e)}`')
@@ -1436,6 +1571,9 @@ class FnTr:
                 return Val(chars_literal(e.value), 'Chars')          # a str is the list of its characters
             if isinstance(e.value, float) and e.value == int(e.value) and 'float_as_int' in self.u.hooks:
                 return Val(f'({int(e.value)} : Int)', 'Int')      # 1.0, 2.0 next to the numeric class: the same number
+            if isinstance(e.value, str) and 'str_const' in self.u.hooks and e.value.isascii() and e.value.isprintable() \
+                    and '"' not in e.value and '\\' not in e.value:
+                return Val(f'"{e.value}"', 'Str')
             raise Unsupported(f'constant {e.value!r}')
         if isinstance(e, ast.Attribute):
             return self.attribute(e)
@@ -1483,6 +1621,10 @@ class FnTr:
                 return self.expr(e.body)
             if st is False:
                 return self.expr(e.orelse)
+            if 'frame' in self.u.hooks:
+                r = self.ifexp_framed(e)
+                if r is not None:
+                    return r
             if self.has_optional_test(e.test):
                 # `f(x) if x else None`: a match that binds the narrowed value; both arms brought to one type
                 types = []
@@ -1656,6 +1798,9 @@ class FnTr:
         if path and path in self.narrow:
             return self.narrow[path]
         base = self.expr(e.value)
+        if 'frame' in self.u.hooks and (base.typ, e.attr) in self.u.hooks['frame'].get('getattr', {}):
+            tmpl, typ = self.u.hooks['frame']['getattr'][(base.typ, e.attr)]     # a read through the current object state
+            return Val(tmpl.format(_paren(base.text), fr=self.frame()), typ, path=(f'{base.path}.{e.attr}' if base.path else None))
         spec = self.u.attr_types.get((base.typ, e.attr))
         if spec:
             tmpl, typ = spec
@@ -1748,6 +1893,10 @@ class FnTr:
         if len(args) != len([p for p in inst.params]):
             raise Unsupported(f'`{inst.qual}` applied to {len(args)} arguments, declared {len(inst.params)}')
         ctx = [n for n, _t in self.u.ctx_params] if inst in self.u.insts else []
+        if 'frame' in self.u.hooks and ctx:
+            if inst.value_type == self.u.hooks['frame']['result']:
+                raise Unsupported(f'`{self.inst.qual}`: call of the updating method `{inst.qual}` from a translated method')
+            ctx = [_paren(self.frame()) if n == self.u.hooks['frame']['name'] else n for n in ctx]     # the *current* object state
         txt = ' '.join([inst.lean] + ctx + [_paren(a.text) for a, (_n, t) in zip(args, inst.params) if t != 'None'])
         v = Val(f'({txt})', inst.value_type)
         v.raises = inst.raises
